@@ -182,6 +182,11 @@ func getObjPrototype() *Value {
 				Tag: ValueNativeFn,
 				NativeFn: func(e *Evaluator, v []*Value, this *Value) (*Value, error) {
 					newObj := NewObject()
+					if this == nil || this.Tag != ValueObj {
+						// the receiver's variable was reassigned while the
+						// arguments were evaluated
+						return &newObj, nil
+					}
 					for _, value := range v {
 						// only the object's own members: GetMember would fall back to
 						// the prototype and hand out a method for a key like "length"
